@@ -88,6 +88,12 @@ type auditFailure struct {
 	Desc string
 }
 
+// effectOnly: the contract declares nothing but the cancellable effect.
+func effectOnly(fc *FuncContract) bool {
+	return fc.Cancellable && len(fc.Ensures) == 0 && len(fc.Requires) == 0 && !fc.Safe && len(fc.LoopInv) == 0 &&
+		len(fc.CallAsserts) == 0 && len(fc.LoopStep) == 0 && len(fc.GhostEffects) == 0 && !fc.HasMod
+}
+
 // propertyFuncs lists the functions whose contracts carry the property.
 func propertyFuncs(cs *Contracts, prop string) []string {
 	var names []string
@@ -117,6 +123,9 @@ func runProperty(w *World, cs *Contracts, mods *ModAnalysis, prop, tier string, 
 			out.assumptions["trusted contract (body not verified): "+n+" "+strings.Join(fc.Notes, "; ")] = true
 			continue
 		}
+		if effectOnly(fc) {
+			continue // only the effect audit applies
+		}
 		for _, note := range fc.Notes {
 			if strings.HasPrefix(note, "ASSUMED") {
 				out.assumptions[note] = true
@@ -132,7 +141,11 @@ func runProperty(w *World, cs *Contracts, mods *ModAnalysis, prop, tier string, 
 		for a := range fr.Enc.assumptions {
 			out.assumptions[a] = true
 		}
-		rs := solveAll(fr, solveOpts{timeoutS: timeout, workers: 16, dir: scratch, crossCheck: cross})
+		noRetry := map[string]bool{}
+		for _, f := range loadKnown().Findings {
+			noRetry[f.Obligation] = true
+		}
+		rs := solveAll(fr, solveOpts{timeoutS: timeout, workers: 10, dir: scratch, crossCheck: cross, noRetry: noRetry})
 		for _, r := range rs {
 			if r.ToolError != "" {
 				out.errs = append(out.errs, r.ToolError)
@@ -439,7 +452,7 @@ func cmdBaseline(args []string) {
 		bl := &Baseline{Property: prop}
 		bl.Functions = propertyFuncs(cs, prop)
 		for _, n := range bl.Functions {
-			if cs.Funcs[n].Trusted {
+			if cs.Funcs[n].Trusted || effectOnly(cs.Funcs[n]) {
 				continue
 			}
 			fr := encodeFunc(w, cs, mods, n)
